@@ -22,6 +22,10 @@ FLAVOURS = {
     'gcc-asan':   ('g++',     '-std=c++11 -O1 ' + SAN, 'single'),
     'clang-asan-dev': ('clang++', '-std=c++11 -O1 ' + SAN + ' -fno-sanitize=object-size', 'dev'),
     'gcc-O2':     ('g++',     '-std=c++11 -O2', 'single'),
+    'u-clang-asan': ('clang++', '-std=c++17 -O0 ' + SAN + ' -fno-sanitize=object-size', 'single'),
+    'u-gcc':      ('g++',     '-std=c++17 -O0', 'single'),
+    'u-gcc-O2':   ('g++',     '-std=c++17 -O2', 'single'),
+    'u-clang-O1': ('clang++', '-std=c++17 -O1', 'single'),
     'id-clang':   ('clang++', '-std=c++11 -O0', 'single'),
     'id-gcc':     ('g++',     '-std=c++11 -O0', 'single'),
     'id-gcc17':   ('g++',     '-std=c++17 -O0', 'single'),
